@@ -349,6 +349,18 @@ pub(crate) fn rewrite_range_pat<T: Rewrite>(
     };
     let lspan = span.with_hi(end_kind.span.lo());
     let rspan = span.with_lo(end_kind.span.hi());
+    // `1.` directly followed by `..=` would read `1` `...` `=`: keep them apart.
+    let lhs_ends_in_dot = RangeOperand {
+        operand: lhs,
+        span: lspan,
+    }
+    .rewrite(context, shape)
+    .is_some_and(|s| s.ends_with('.'));
+    let infix = if lhs_ends_in_dot && !infix.starts_with(' ') {
+        format!(" {infix}")
+    } else {
+        infix
+    };
     rewrite_pair(
         &RangeOperand {
             operand: lhs,
